@@ -404,8 +404,12 @@ func runC01(res *hx.Result, rng *hx.Rng, tier string, outdir string) {
 	}
 	cf.Flush()
 	// limit-sized payloads: implementation-only oracle (too large for the in-Coq evaluation)
-	if tier == "thorough" {
-		for _, n := range []int{int(net.MaxPayloadSize) - 1, int(net.MaxPayloadSize)} {
+	{
+		sizes := []int{65535, 65536, 65537, 70000, 1 << 20}
+		if tier == "thorough" {
+			sizes = append(sizes, int(net.MaxPayloadSize)-1, int(net.MaxPayloadSize))
+		}
+		for _, n := range sizes {
 			h := genHeader(rng)
 			p := rng.Bytes(n)
 			m := net.NewMessage(h, p)
@@ -418,6 +422,12 @@ func runC01(res *hx.Result, rng *hx.Rng, tier string, outdir string) {
 			o := runRead(buf.Bytes(), sched)
 			if len(o.msgs) != 1 || !bytes.Equal(o.msgs[0].Payload, p) || o.msgs[0].Header != m.Header || o.left != 0 {
 				res.Fail("limit", fmt.Sprintf("%d-byte payload did not round-trip", n))
+			}
+			// two such frames back to back, then a frame cut in its payload: exactly two come back
+			two := append(append(append([]byte(nil), buf.Bytes()...), buf.Bytes()...), buf.Bytes()[:28+n/2]...)
+			o2 := runRead(two, sched)
+			if len(o2.msgs) != 2 || o2.errc != 1 {
+				res.Fail("limit", fmt.Sprintf("two %d-byte frames and half a third: %d frames read, error class %d", n, len(o2.msgs), o2.errc))
 			}
 			res.Count(fmt.Sprintf("limit%d", n), true)
 			res.Dist("limit-sized")
